@@ -53,7 +53,20 @@ fn gen_pair(rng: &mut Rng) -> Pair {
         // selected alternative / class field. The target itself contains no reference of that kind.
         let v = *rng.pick(&[9i64, 200, 70000]);
         let lv = format!("@Lv0 INTEGER ::= {v}\n");
-        return match rng.below(8) {
+        return match rng.below(9) {
+            8 => {
+                // two instantiations whose type arguments are the same built-in type under different constraints (and equal
+                // value arguments): each instance gets its own argument
+                let (c1, c2) = *rng.pick(&[("(0..255)", "(0..7)"), ("(-5..5)", "(0..70000)"), ("(SIZE (1..4))", "(SIZE (2))")]);
+                let base = if c1.contains("SIZE") { "OCTET STRING" } else { "INTEGER" };
+                Pair {
+                    family: "parameterized-type",
+                    class: "params=2,instantiations=2,same-builtin-argument-different-constraints".into(),
+                    helpers: "@HTp {T, INTEGER: n} ::= SEQUENCE { aq1 T, aq2 INTEGER (0..n) }\n".into(),
+                    sugared: format!("Tq1 ::= @HTp {{{base} {c1}, 4}}\nTq2 ::= @HTp {{{base} {c2}, 4}}\nTq3 ::= SEQUENCE {{ fq1 @HTp {{{base} {c2}, 4}}, fq2 @HTp {{{base} {c1}, 4}} }}\n"),
+                    expanded: format!("Tq1 ::= SEQUENCE {{ aq1 {base} {c1}, aq2 INTEGER (0..4) }}\nTq2 ::= SEQUENCE {{ aq1 {base} {c2}, aq2 INTEGER (0..4) }}\nTq3 ::= SEQUENCE {{ fq1 SEQUENCE {{ aq1 {base} {c2}, aq2 INTEGER (0..4) }}, fq2 SEQUENCE {{ aq1 {base} {c1}, aq2 INTEGER (0..4) }} }}\n"),
+                }
+            }
             5 => Pair {
                 // two anonymous nested types that both use COMPONENTS OF (last position, where a single level works)
                 family: "components-of",
